@@ -10,7 +10,8 @@ for d in seeded/*/; do
   prop=$(python3 -c "import json;print(json.load(open('$d/meta.json'))['property'])")
   if ! git -C /repo diff --quiet; then echo "/repo dirty" >&2; exit 2; fi
   git -C /repo apply "/verif/$d/patch.diff" || { echo "$n: patch does not apply" >&2; continue; }
-  res=$(./check $prop quick --no-evidence 2>&1); rc=$?
+  extra=$(python3 -c "import json;print(json.load(open('$d/meta.json')).get('extra_args',''))")
+  res=$(./check $prop quick --no-evidence $extra 2>&1); rc=$?
   git -C /repo checkout -- .
   oracle=$(echo "$res" | grep -m1 -o "oracle=[a-zA-Z_:0-9]*" | cut -d= -f2)
   echo "$n $prop exit=$rc ${oracle:-none}"
